@@ -5,6 +5,7 @@ import (
 	"context"
 	"fmt"
 	"strings"
+	"time"
 
 	sse "github.com/tmaxmax/go-sse"
 	"github.com/tmaxmax/go-sse/vrt"
@@ -37,6 +38,8 @@ type Params struct {
 	Preempt int
 	// Shutdown: a thread notes which Publish calls have returned and then calls Shutdown while everything runs.
 	Shutdown bool
+	// Inner: "finite" / "valid" puts a real replayer (automatic IDs) behind the recording one.
+	Inner string
 }
 
 type world struct {
@@ -55,8 +58,20 @@ func body(p Params) func() {
 	return func() {
 		w := &world{JL: &jh.JoeLog{}}
 		vrt.SetUser(w)
-		j := &sse.Joe{Replayer: &jh.Replayer{JL: w.JL}}
-		if p.PreInit {
+		rep := &jh.Replayer{JL: w.JL}
+		switch p.Inner {
+		case "finite":
+			f, _ := sse.NewFiniteReplayer(4, true)
+			rep.Inner = f
+		case "valid":
+			v, _ := sse.NewValidReplayer(time.Hour, true)
+			v.Now = func() time.Time { return time.Date(2030, 1, 1, 0, 0, 0, 0, time.UTC) }
+			rep.Inner = v
+		}
+		j := &sse.Joe{Replayer: rep}
+		if p.PreInit && p.Inner != "" {
+			jh.PreInitFor(j, true)
+		} else if p.PreInit {
 			jh.PreInit(j)
 		}
 		// per publisher: how many of its publishes have returned
@@ -113,7 +128,7 @@ func body(p Params) func() {
 					if msg == nil {
 						msg = jh.Msg(m.Tag, "")
 					}
-					recs[k].Err = j.Publish(msg, m.Topics)
+					recs[k].Err = j.Publish(msg, append([]string(nil), m.Topics...))
 					recs[k].Returned = true
 					done[pi].Poke(int64(k + 1)) // same step as Publish's last synchronisation operation
 				}
@@ -261,6 +276,13 @@ func Scenarios(tier string) []run.Scenario {
 		add(Params{Name: fmt.Sprintf("same-value-republished-%d", v+1), PreInit: true, Preempt: -1,
 			Subs: [][]SubP{{{Topics: tA}, {Topics: tAB}}, {{Topics: tAB}, {Topics: []string{"b", "c"}}}, {{Topics: tAB}, {Topics: []string{"b", "c"}}}}[v], Pubs: pubs})
 	}
+	// real replayers behind the recorder; topic lists with repetitions, in any order, next to a subscriber of the
+	// default topic (the empty string) and one of a topic nobody publishes to
+	for _, inner := range []string{"finite", "valid"} {
+		add(Params{Name: "repeated-topics-" + inner, PreInit: true, Preempt: -1, Inner: inner,
+			Subs: []SubP{{Topics: tA}, {Topics: tD}},
+			Pubs: [][]MsgP{{{Tag: "m1", Topics: []string{"b", "a", "b"}}, {Tag: "m2", Topics: []string{"a", "a"}}, {Tag: "m3", Topics: []string{"c", "b", "c", "b"}}}}})
+	}
 	// a neighbour fails: the others still get every message exactly once
 	for f := 0; f < 3; f++ {
 		for at := 1; at <= 2; at++ {
@@ -287,7 +309,7 @@ func Scenarios(tier string) []run.Scenario {
 
 var Check = &run.Check{
 	ID: "C03", Level: "model_checking",
-	Rule: "Scenarios: 2-3 subscribers on disjoint/overlapping/default topics (one of them cancelled by a thread that first notes which Publish calls had returned), 2-3 publisher threads with 3-4 messages, fast and slow (yielding) clients, Joe pre-initialised or initialised by the racing calls, one prebuilt *Message value published repeatedly (its publications told apart by the replayer's Put order), final Shutdown (or a Shutdown racing everything, after noting which Publish calls had returned); all interleavings (unbounded, state-key pruning), all select tie-breaks, all map orders. The recording replayer's call order is the serialisation witness.",
+	Rule: "Scenarios: 2-3 subscribers on disjoint/overlapping/default topics (one of them cancelled by a thread that first notes which Publish calls had returned), 2-3 publisher threads with 3-4 messages, fast and slow (yielding) clients, Joe pre-initialised or initialised by the racing calls, real Finite/ValidReplayer behind the recorder with topic lists that repeat topics next to a default-topic subscriber; one prebuilt *Message value published repeatedly (its publications told apart by the replayer's Put order), final Shutdown (or a Shutdown racing everything, after noting which Publish calls had returned); all interleavings (unbounded, state-key pruning), all select tie-breaks, all map orders. The recording replayer's call order is the serialisation witness.",
 	Assumptions: []string{
 		"schedules are explored at the granularity of synchronisation operations under sequential consistency (DESIGN.md 2.1)",
 		"'published before cancellation was requested' is decided inside each execution through a shared flag set after Publish returned and read by the cancelling thread (an under-approximation of what is owed, never an over-approximation)",
